@@ -45,3 +45,53 @@ Proof.
   - eapply step_eq; [eapply s_coll_unlock; left; split; eassumption|req].
   - eapply step_eq; [eapply s_coll_unlock; right; eassumption|req].
 Qed.
+
+Lemma reach_exec_ev s e s' : reach s -> exec_ev s e = Some s' -> reach s'.
+Proof.
+  intros R H. destruct (exec_ev_sound _ _ _ H) as [->|Hs]; [exact R|eapply r_step; eassumption].
+Qed.
+
+Lemma exec_ev2_sound s p e s' p' : reach s -> exec_ev2 (s, p) e = Some (s', p') -> reach s'.
+Proof.
+  intros R. unfold exec_ev2. destruct p as [[t' e']|].
+  - destruct e; cbv [is_coll_ev];
+      try (destruct (exec_ev s _) eqn:E; intros H; inversion H; subst;
+           eapply reach_exec_ev; eassumption);
+      try discriminate.
+    match goal with |- context [(N.eqb ?a ?b && Bool.eqb ?c ?d)%bool] => destruct (N.eqb a b && Bool.eqb c d)%bool end;
+      intros H; inversion H; subst; exact R.
+  - destruct e;
+      try (destruct (exec_ev s _) eqn:E; intros H; inversion H; subst; eapply reach_exec_ev; eassumption).
+    destruct (cp s) eqn:Ec;
+      try (destruct (exec_ev s _) eqn:E; intros H; inversion H; subst; eapply reach_exec_ev; eassumption).
+    destruct (done s) as [x|] eqn:Ed;
+      try (destruct (exec_ev s _) eqn:E; intros H; inversion H; subst; eapply reach_exec_ev; eassumption).
+    destruct (exec_ev (recv_state s x) _) eqn:E; intros H; inversion H; subst.
+    eapply reach_exec_ev; [|eassumption].
+    eapply r_step; [exact R|]. unfold recv_state. apply s_recv; assumption.
+Qed.
+
+Lemma run_trace2_sound tr : forall s p i s' p',
+  reach s -> run_trace2 (s, p) i tr = inl (s', p') -> reach s'.
+Proof.
+  induction tr as [|e tr IH]; cbn [run_trace2]; intros s p i s' p' R H.
+  - inversion H; subst; exact R.
+  - destruct (exec_ev2 (s, p) e) as [[s1 p1]|] eqn:E; [|discriminate].
+    eapply IH; [|eassumption]. eapply exec_ev2_sound; eassumption.
+Qed.
+
+Lemma run_trace_sound tr s i s' : reach s -> run_trace s i tr = inl s' -> reach s'.
+Proof.
+  unfold run_trace. intros R. destruct (run_trace2 (s, None) i tr) as [[s1 [p1|]]|] eqn:E; try discriminate.
+  intros H; inversion H; subst. eapply run_trace2_sound; eassumption.
+Qed.
+
+(* an accepted trace is a run of the LTS that ends in a reachable, settled state; so every
+   theorem about reachable states holds along recorded executions of the implementation *)
+Lemma accepts_sound tr :
+  accepts tr = true -> exists s, reach s /\ Inv s /\ settled s = true.
+Proof.
+  unfold accepts. destruct (run_trace init 0 (normalize tr)) as [s|] eqn:E; [|discriminate].
+  intros H. exists s. assert (R : reach s) by (eapply run_trace_sound; [apply r_init|eassumption]).
+  split; [exact R|]. split; [apply inv_reach; exact R|exact H].
+Qed.
